@@ -11,6 +11,10 @@ CONSTANTS
   MaxInFlight = 1
   ForgeBudget = 1
   Classes <- AllClasses
+  FineIngest = FALSE
+  Batch = FALSE
+  Worker = {}
+  Variant_ReadLatestBeforeBegin = FALSE
   Defect_PruneAfterFailedIngest = TRUE
   Defect_PruneFlagSkipsLatestCheck = FALSE
   Defect_LogIdFromTopicUnchecked = FALSE
